@@ -137,7 +137,7 @@ def check_sender(fc, add, creator):
     for bb, t in takes:
         some = None
         for sb, ce in fc.ces.items():
-            if ce.expr[0] == "discr" and ce.expr[1][0] == "call" and ce.expr[1][3] == bb:
+            if ce.expr[0] == "discr" and ce.expr[1][0] == "call" and ce.expr[1][3] == bb and not ce.expr[1][4]:
                 some = ce.target_for(1)
         ok = some is not None and not (m.reachable(some, removed_blocks=wakes) & rets)
         add("R34c", "taken waker is woken", ok, "waker.take() returns Some but wake() is not called on every path", t.line)
